@@ -462,6 +462,41 @@ fn long_call_history(ctx: &Ctx, rep: &mut Report) {
     }
 }
 
+/// Deep structures on a small stack, library built UNOPTIMISED (crate /verif/stackcheck,
+/// see its header): each case runs in a child process; a child killed by a signal (stack
+/// exhaustion aborts, it does not unwind) or exiting non-zero is a call that did not
+/// return normally.
+fn stack_cases(ctx: &Ctx, rep: &mut Report) {
+    let exe = std::env::var("AVTMC_STACKCHECK").unwrap_or_else(|_| "/verif/target-stackcheck/debug/avt-stackcheck".to_string());
+    let out = match std::process::Command::new(&exe).arg("all").output() {
+        Ok(o) => o,
+        Err(e) => {
+            rep.harness_error = Some(format!("cannot run {}: {} (./check C01 builds it)", exe, e));
+            return;
+        }
+    };
+    let text = String::from_utf8_lossy(&out.stdout).to_string();
+    let total = text.lines().filter(|l| l.starts_with("ok ") || l.starts_with("FAIL ")).count() as u64;
+    let fails: Vec<&str> = text.lines().filter(|l| l.starts_with("FAIL ")).collect();
+    if total == 0 {
+        rep.harness_error = Some(format!("{} all: no case ran: {}", exe, String::from_utf8_lossy(&out.stderr)));
+        return;
+    }
+    rep.evaluations += total;
+    rep.transitions += total;
+    rep.parts.push(json!({"part":"deep-structures-on-a-small-stack","build":"avt at opt-level 0, 2 MiB thread stack, one child process per case","cases":total,"violating":fails.len()}));
+    println!("part deep-structures-on-a-small-stack: {} cases in child processes (unoptimised library), {} violating", total, fails.len());
+    for f in fails.iter().take(3) {
+        let mut it = f.splitn(3, ' ');
+        let (_, _, rest) = (it.next(), it.next(), it.next().unwrap_or(""));
+        let name = rest.split(" :: ").next().unwrap_or("").to_string();
+        emit_violation(ctx, rep, "C01", json!({"part":"deep-structures-on-a-small-stack","case":name,"oracle":"call-does-not-return-normally","observed":f}));
+    }
+    if fails.len() > 3 {
+        rep.violations += fails.len() as u64 - 3;
+    }
+}
+
 fn make_sys(tier: Tier) -> Sys {
     let mut extreme = a_extreme();
     // sizes far from the tiny ones (the work is still what the call requests)
@@ -486,6 +521,7 @@ pub fn run(ctx: &Ctx) -> Report {
     run_part(ctx, &mut rep, &core_part(ctx.tier, &plain));
     sweep(ctx, &mut rep);
     long_call_history(ctx, &mut rep);
+    stack_cases(ctx, &mut rep);
     rep.extra.insert("extreme_alphabet_size".into(), json!(sys.extreme.len()));
     rep.rule = "BFS over op histories (all functions, truncated sequences, resizes incl. 17x2 and 2x9, every Changes treatment) in an overflow-checks + debug-assertions build; every state also gets all read accessors, the same history through TextCollector, and (up to the extreme-layer depth) every extreme-parameter input followed by 9 ordinary ops; plus every listed Unicode scalar fed from every parser state. Oracle: no panic, CPU-time watchdog, per-call allocation envelope".into();
     rep.assumptions = vec![
@@ -515,6 +551,12 @@ pub fn replay(ctx: &Ctx, v: &Value) -> bool {
     if v["part"] == "save-alt-resize-core-deep" {
         let plain = Sys { extreme: vec![], extreme_depth: 0, second: vec![] };
         return replay_part(ctx, &core_part(tier, &plain), v);
+    }
+    if v["part"] == "deep-structures-on-a-small-stack" {
+        let exe = std::env::var("AVTMC_STACKCHECK").unwrap_or_else(|_| "/verif/target-stackcheck/debug/avt-stackcheck".to_string());
+        let st = std::process::Command::new(&exe).arg("run").arg(v["case"].as_str().unwrap_or("")).status();
+        println!("{:?}", st);
+        return !st.map(|s| s.success()).unwrap_or(false);
     }
     if v["part"] == "long-call-history" {
         let mut rep = Report::new();
